@@ -14,6 +14,22 @@ LEDGER_NOTE = ("Trusted: TLC, JSON bridge, the harness's read-only projection th
                "methods are not generated yet.")
 
 CHECKS = {
+    "C01": (
+        "Replica.tla (proposal cache of the ABCI multiplexer) checked by TLC; TLC-emitted path-assignment rows drive seeded block "
+        "histories on 4 real multiplexers (both backends, restarts from disk); recorded per-height results validated by TLC "
+        "(TraceReplica.tla)",
+        "Exhaustive TLC check that along every assignment of execution paths each replica reports Exec(own state, decided block); "
+        "all 108 distinct path rows are replayed on real replica networks over random block histories; TLC accepts a run only if "
+        "state root, every transaction result and the validator-update set agree on all replicas at every height.",
+        LEDGER_NOTE + " Consensus-connection calls sequential per replica; concurrent CheckTx/EstimateGas/query/pruner "
+        "interleavings not driven yet.", "DESIGN.md 4 C01"),
+    "C10": (
+        "Scenario driver on real multiplexers with every ABCI call under recover(); recorded life cycle validated by TLC "
+        "(TraceReplica.tla clauses C10); Replica.tla design run",
+        "Seeded adversarial block histories (failing/malformed/junk/replayed transactions, all validators absent, evidence "
+        "against known and unknown validators, lapsing and frozen nodes, coinciding rewards/fees/debonding at epoch boundaries) "
+        "on 4 real replicas; TLC rejects a run containing a panic, a PrepareProposal failure or a rejected honest proposal.",
+        LEDGER_NOTE + " The documented precondition (one stake-eligible validator) is kept by the driver.", "DESIGN.md 4 C10"),
     "C18": (
         "Attest.tla (regions Orig/Mut, time boundary points, policies, collateral choice; Verify transcribing the order of checks) "
         "checked by TLC against the declarative acceptance rule; emitted cases concretised as bit/byte mutations of the real SGX/TDX "
